@@ -87,7 +87,7 @@ def gen_sibling(rng, leaf):
     rows = [list(r) for r in leaf['alpha']]
     c = [F(x) for x in leaf['c']]
     c2 = [F(rng.randint(1, 6)) if x > 0 else F(-rng.randint(1, 3)) for x in c]
-    if len(rows) >= 3 and rng.random() < 0.5:
+    if len(rows) >= 3 and rng.random() < 0.3:
         k = rng.choice([i for i, x in enumerate(c) if x < 0] or [0])
         new = [frac_str(F(rng.choice([0, 2, 4]) if leaf['poly'] else rng.randint(-2, 3))) for _ in rows[k]]
         if new not in rows:
@@ -99,7 +99,7 @@ def gen_infer_case(rng):
     poly = rng.random() < 0.45
     n = rng.randint(1, 3)
     gts = [gen_constraint(rng, n, poly, False) for _ in range(rng.randint(0, 3))]
-    if gts and rng.random() < 0.4:
+    if gts and rng.random() < 0.6:
         gts.insert(rng.randint(1, len(gts)), gen_sibling(rng, gts[0]))
     eqs = [gen_constraint(rng, n, poly, True) for _ in range(rng.randint(0, 2))]
     return {'poly': poly, 'n': n, 'gts': gts, 'eqs': eqs}
